@@ -1,4 +1,5 @@
 import Req.Client.HeaderSort
+import Req.Client.HeaderSortSpec
 import Req.H1.RequestWrite
 import Req.H2.Fields
 import Req.Client.Rewrite
@@ -27,18 +28,6 @@ open Req.Props.C16 Req.Props.C16Wire
 
 section Stable
 variable {α : Type} (idx : α → Option Nat)
-
-def olt : Option Nat → Option Nat → Bool
-  | some i, some j => decide (i < j)
-  | _, _ => false
-
-def isListed (x : α) : Bool := (idx x).isSome
-
-def insL (x : α) : List α → List α
-  | [] => [x]
-  | y :: ys => if olt (idx x) (idx y) then y :: insL x ys else x :: y :: ys
-
-def stableSort (l : List α) : List α := (l.foldl (fun acc x => insL idx x acc) []).reverse
 
 theorem insL_stop (x : α) (F : List α) (h : ∀ z ∈ F, olt (idx x) (idx z) = false) :
     insL idx x F = x :: F := by
@@ -177,13 +166,6 @@ theorem lastIndex_isSome (order : List Bytes) (k : Bytes) :
     (lastIndex order k).isSome = order.any (fun o => canonicalKey o == canonicalKey k) := by
   rw [lastIndex_spec, spec_isSome]
 
-/-- the order list without the entries that occur again later (canonical form compared): what
-"the last occurrence wins" makes of a list with duplicates. -/
-def dedupLast : List Bytes → List Bytes
-  | [] => []
-  | o :: os =>
-    if os.any (fun p => canonicalKey p == canonicalKey o) then dedupLast os else o :: dedupLast os
-
 theorem spec_cons_olt (ck ck' : Bytes) (o : Bytes) (os : List Bytes) :
     olt (lastIdxSpec ck (o :: os)) (lastIdxSpec ck' (o :: os)) =
       (olt (lastIdxSpec ck os) (lastIdxSpec ck' os) ||
@@ -264,9 +246,6 @@ theorem dedupLast_nodup (order : List Bytes) :
 
 
 /-! ### the theorems about `SortKeyValues` -/
-
-/-- the field is named by the order list (canonical forms compared). -/
-def listedBy (order : List Bytes) (kv : KV) : Bool := (lastIndex order kv.key).isSome
 
 /-- **sort_listed_subsequence**: for key/value lists of any length and ANY order list (duplicates,
 other case, unknown names), the listed fields come out as the listed fields of the input stably
